@@ -9,6 +9,7 @@ import (
 	"runtime"
 	"sync"
 
+	"go.pennock.tech/tabular/texttable"
 	"go.pennock.tech/tabular/texttable/decoration"
 )
 
@@ -53,15 +54,13 @@ func runConcMode(in *os.File, out *bufio.Writer, facets map[string]bool) {
 		}
 		return ops
 	}
-	// phase 1: solo
+	// The concurrent rounds come FIRST, on a process that has rendered nothing
+	// yet (lazily initialised shared state, caches and the like are cold), and
+	// record the raw bytes of every render; the solo runs follow and every
+	// concurrent output is compared with the solo output of the same scenario.
 	solo := make([][]string, len(scens))
-	for i := range scens {
-		w := newWorld()
-		w.recordRaw = true
-		runScenarioIn(w, out, "solo_"+ids[i], reparse(i), facets, false, nil)
-		solo[i] = w.rawOutputs
-	}
-	out.Flush()
+	conc := map[string][]string{} // "round/index" -> raw outputs
+	var concMu sync.Mutex
 	// phase 2: concurrent rounds
 	rounds := *flagRounds
 	group := *flagGroup
@@ -103,12 +102,15 @@ func runConcMode(in *os.File, out *bufio.Writer, facets map[string]bool) {
 					defer wg.Done()
 					bw := bufio.NewWriter(buf)
 					w := newWorld()
-					w.soloOutputs = solo[i]
+					w.recordRaw = true
 					w.jitter = rand.New(rand.NewSource(int64(*flagSubst)*7919 + int64(r*100003+i)))
 					ops := reparse(i)
 					<-start
 					runScenarioIn(w, bw, fmt.Sprintf("c%d_%s", r, ids[i]), ops, facets, false, nil)
 					bw.Flush()
+					concMu.Lock()
+					conc[fmt.Sprintf("%d/%d", r, i)] = w.rawOutputs
+					concMu.Unlock()
 				}(i, bufs[i-base])
 			}
 			close(start)
@@ -123,6 +125,32 @@ func runConcMode(in *os.File, out *bufio.Writer, facets map[string]bool) {
 			}
 		}
 	}
+	// solo runs, then the comparison
+	for i := range scens {
+		w := newWorld()
+		w.recordRaw = true
+		runScenarioIn(w, out, "solo_"+ids[i], reparse(i), facets, false, nil)
+		solo[i] = w.rawOutputs
+	}
+	unequal := []interface{}{}
+	compared := 0
+	for r := 1; r <= rounds; r++ {
+		for i := range scens {
+			c := conc[fmt.Sprintf("%d/%d", r, i)]
+			if len(c) != len(solo[i]) {
+				unequal = append(unequal, []interface{}{r, ids[i], -1})
+				continue
+			}
+			for k := range c {
+				compared++
+				if c[k] != solo[i][k] {
+					unequal = append(unequal, []interface{}{r, ids[i], k + 1})
+				}
+			}
+		}
+	}
+	writeLine(out, M{"op": M{"op": "reset", "id": "solocmp", "reg": registrySnapshot(), "defdec": decorOfWrapper(texttable.New())}})
+	writeLine(out, M{"op": M{"op": "solocmp"}, "obs": M{"res": M{"compared": compared, "unequal": unequal}}})
 	out.Flush()
-	fmt.Fprintf(os.Stderr, "vdrive: {\"scenarios\": %d, \"ops\": %d}\n", len(scens)*(rounds+1), nops)
+	fmt.Fprintf(os.Stderr, "vdrive: {\"scenarios\": %d, \"ops\": %d, \"renders\": %d}\n", len(scens)*(rounds+1), nops, compared)
 }
